@@ -35,3 +35,922 @@ Section CryptoProofs.
     repeat split; auto. exists pt. apply open_only_seal. exact Ho.
   Qed.
 End CryptoProofs.
+
+(* ------------- decoder: what DecodePacket = Ok says about the bytes ------------- *)
+Lemma nthz_firstn : forall (b : bytes) A i, (i < A)%nat -> nthz (firstn A b) i = nthz b i.
+Proof.
+  unfold nthz. induction b as [|x b IH]; intros A i H.
+  - rewrite firstn_nil. reflexivity.
+  - destruct A as [|A]; [lia|]. destruct i as [|i]; simpl; [reflexivity|]. apply IH. lia.
+Qed.
+
+Lemma be16_firstn : forall b A pos, (pos + 2 <= A)%nat -> be16 (firstn A b) pos = be16 b pos.
+Proof. intros. unfold be16. rewrite !nthz_firstn by lia. reflexivity. Qed.
+
+Lemma skipn_firstn_comm' : forall (b : bytes) A m, (m <= A)%nat -> skipn m (firstn A b) = firstn (A - m) (skipn m b).
+Proof. intros. rewrite skipn_firstn_comm. reflexivity. Qed.
+
+Lemma take_pad_prefix : forall (b : bytes) A vpos n, (vpos + n <= A)%nat -> (A <= length b)%nat ->
+  take_pad n (skipn vpos (firstn A b)) = take_pad n (skipn vpos b).
+Proof.
+  intros b A vpos n H1 H2. unfold take_pad.
+  rewrite skipn_firstn_comm. rewrite firstn_firstn. replace (Nat.min n (A - vpos)) with n by lia.
+  rewrite firstn_length, !skipn_length. f_equal. f_equal. lia.
+Qed.
+
+(* the part of the decoder state that the fields before the authenticator determine *)
+Definition core (s : dstate) : bytes * list bytes * nat * bool :=
+  (p_uid (d_pkt s), p_cookies (d_pkt s), p_nph (d_pkt s), d_uid s).
+
+(* the walk of DecodePacket over the fields that precede the authenticator,
+   as a function of those bytes alone *)
+Fixpoint scan (fuel : nat) (pre : bytes) (pos : nat) (s : dstate) : option dstate :=
+  if (pos =? length pre)%nat then Some s else
+  match fuel with
+  | O => None
+  | S f => match decode_field pre pos s with
+           | Ok (next, s') => if d_auth s' then None else scan f pre next s'
+           | _ => None
+           end
+  end.
+
+Lemma scan_S : forall f pre pos s,
+  scan (S f) pre pos s =
+  if (pos =? length pre)%nat then Some s else
+  match decode_field pre pos s with
+  | Ok (next, s') => if d_auth s' then None else scan f pre next s'
+  | _ => None
+  end.
+Proof. reflexivity. Qed.
+
+Lemma decode_field_next : forall b pos s next s',
+  decode_field b pos s = Ok (next, s') ->
+  4 <= be16 b (pos + 2) /\ next = (pos + Z.to_nat (be16 b (pos + 2)))%nat /\
+  (d_auth s' = true <-> (be16 b pos = extAuthenticator \/ d_auth s = true)).
+Proof.
+  intros b pos s next s' H. unfold decode_field in H.
+  destruct (be16 b (pos + 2) <? 4) eqn:Hl; [discriminate|]. apply Z.ltb_ge in Hl.
+  destruct (be16 b pos =? extUniqueIdentifier) eqn:H1.
+  { apply Z.eqb_eq in H1. destruct (be16 b (pos + 2) - 4 <? 32); [discriminate|]. inversion H; subst; simpl.
+    repeat split; auto; try lia; try (intros [E|E]; auto; rewrite H1 in E; discriminate). }
+  destruct (be16 b pos =? extAuthenticator) eqn:H2.
+  { apply Z.eqb_eq in H2. destruct (unpack_auth b (pos + 4)) as [n c]. inversion H; subst; simpl. repeat split; auto; try lia. }
+  apply Z.eqb_neq in H2.
+  destruct (be16 b pos =? extCookie) eqn:H3.
+  { inversion H; subst; simpl. repeat split; auto; try lia; try (intros [E|E]; auto; contradiction). }
+  destruct (be16 b pos =? extCookiePlaceholder) eqn:H4.
+  { inversion H; subst; simpl. repeat split; auto; try lia; try (intros [E|E]; auto; contradiction). }
+  inversion H; subst. repeat split; auto; try lia; try (intros [E|E]; auto; contradiction).
+Qed.
+
+Lemma decode_field_prefix : forall b A pos s,
+  (A <= length b)%nat -> (pos + Z.to_nat (be16 b (pos + 2)) <= A)%nat -> 4 <= be16 b (pos + 2) ->
+  be16 b pos <> extAuthenticator ->
+  decode_field (firstn A b) pos s = decode_field b pos s.
+Proof.
+  intros b A pos s HA Hn Hl Ht. unfold decode_field.
+  assert (E1 : be16 (firstn A b) pos = be16 b pos) by (apply be16_firstn; lia).
+  assert (E2 : be16 (firstn A b) (pos + 2) = be16 b (pos + 2)) by (apply be16_firstn; lia).
+  rewrite E1, E2.
+  assert (E3 : take_pad (Z.to_nat (be16 b (pos + 2) - 4)) (skipn (pos + 4) (firstn A b)) =
+               take_pad (Z.to_nat (be16 b (pos + 2) - 4)) (skipn (pos + 4) b)) by (apply take_pad_prefix; lia).
+  rewrite E3.
+  destruct (be16 b pos =? extAuthenticator) eqn:H2; [apply Z.eqb_eq in H2; contradiction|].
+  reflexivity.
+Qed.
+
+(* main loop lemma: if the loop ends having found an authenticator, then the
+   fields before it were walked exactly as scan walks the prefix *)
+Lemma decode_loop_scan : forall fuel b pos s r,
+  decode_loop fuel b pos s = Ok r -> d_auth s = false -> d_auth r = true ->
+  let A := p_pos (d_pkt r) in
+  (pos <= A)%nat /\ (A + 28 <= length b)%nat /\ be16 b A = extAuthenticator /\ 4 <= be16 b (A + 2) /\
+  (p_nonce (d_pkt r), p_ct (d_pkt r)) = unpack_auth b (A + 4) /\
+  exists s1, scan fuel (firstn A b) pos s = Some s1 /\ core s1 = core r.
+Proof.
+  induction fuel as [|f IH]; intros b pos s r H Hs Hr; simpl in H.
+  - destruct (decode_continue b pos s); [discriminate|]. inversion H; subst. congruence.
+  - destruct (decode_continue b pos s) eqn:Hc.
+    2:{ inversion H; subst. congruence. }
+    unfold decode_continue in Hc. apply andb_true_iff in Hc. destruct Hc as [Hc _]. apply Nat.leb_le in Hc.
+    destruct (decode_field b pos s) as [[next s']| | |] eqn:Hf; try discriminate.
+    pose proof (decode_field_next _ _ _ _ _ Hf) as [Hl [Hn Ha]].
+    destruct (Z.eq_dec (be16 b pos) extAuthenticator) as [Ht|Ht].
+    + (* the authenticator is here *)
+      assert (Hs' : d_auth s' = true) by (apply Ha; auto).
+      assert (r = s').
+      { destruct f; simpl in H; unfold decode_continue in H; rewrite Hs' in H; rewrite andb_false_r in H; inversion H; auto. }
+      subst r. unfold decode_field in Hf.
+      destruct (be16 b (pos + 2) <? 4); [discriminate|].
+      destruct (be16 b pos =? extUniqueIdentifier) eqn:H1; [apply Z.eqb_eq in H1; rewrite Ht in H1; discriminate|].
+      destruct (be16 b pos =? extAuthenticator) eqn:H2; [|apply Z.eqb_neq in H2; contradiction].
+      destruct (unpack_auth b (pos + 4)) as [n c] eqn:Hu. inversion Hf; subst; simpl.
+      repeat split; auto; try lia.
+      exists s. split.
+      * rewrite firstn_length. replace (Nat.min pos (length b)) with pos by lia. rewrite Nat.eqb_refl. reflexivity.
+      * reflexivity.
+    + assert (Hs' : d_auth s' = false).
+      { destruct (d_auth s') eqn:E; auto. destruct Ha as [Ha _]. destruct (Ha eq_refl); congruence. }
+      specialize (IH b next s' r H Hs' Hr). simpl in IH.
+      destruct IH as [I1 [I2 [I3 [I4 [I5 [s1 [I6 I7]]]]]]].
+      repeat split; auto; try lia.
+      exists s1. split; auto.
+      assert (Hlen : length (firstn (p_pos (d_pkt r)) b) = p_pos (d_pkt r)) by (rewrite firstn_length; lia).
+      rewrite scan_S, Hlen.
+      destruct (pos =? p_pos (d_pkt r))%nat eqn:E; [apply Nat.eqb_eq in E; lia|].
+      rewrite decode_field_prefix; try lia; auto. rewrite Hf, Hs'. exact I6.
+Qed.
+
+Definition dstate0 : dstate := {| d_pkt := packet0; d_uid := false; d_auth := false |}.
+
+(* "the fields in front of the authenticator, pre = b[:pos], decode to c" *)
+Definition prefix_fields (pre : bytes) (c : bytes * list bytes * nat * bool) : Prop :=
+  exists fuel s1, scan fuel pre ntpPacketLen dstate0 = Some s1 /\ core s1 = c.
+
+Lemma scan_fuel_irrelevant : forall f1 f2 pre pos s a b,
+  scan f1 pre pos s = Some a -> scan f2 pre pos s = Some b -> a = b.
+Proof.
+  induction f1 as [|f1 IH]; intros f2 pre pos s a b H1 H2.
+  - simpl in H1. destruct (pos =? length pre)%nat eqn:E; [|discriminate].
+    destruct f2; simpl in H2; rewrite E in H2; congruence.
+  - rewrite scan_S in H1. destruct (pos =? length pre)%nat eqn:E.
+    + destruct f2; simpl in H2; rewrite E in H2; congruence.
+    + destruct f2; [simpl in H2; rewrite E in H2; discriminate|].
+      rewrite scan_S, E in H2.
+      destruct (decode_field pre pos s) as [[next s']| | |]; try discriminate.
+      destruct (d_auth s'); [discriminate|]. eapply IH; eauto.
+Qed.
+
+Lemma prefix_fields_fun : forall pre c1 c2, prefix_fields pre c1 -> prefix_fields pre c2 -> c1 = c2.
+Proof.
+  intros pre c1 c2 [f1 [s1 [H1 E1]]] [f2 [s2 [H2 E2]]].
+  rewrite <- E1, <- E2. f_equal. eapply scan_fuel_irrelevant; eauto.
+Qed.
+
+Lemma decode_loop_fuel : forall fuel b pos s,
+  (length b < fuel + pos + 28)%nat -> decode_loop fuel b pos s <> OutOfFuel.
+Proof.
+  induction fuel as [|f IH]; intros b pos s H; simpl.
+  - destruct (decode_continue b pos s) eqn:Hc; [|discriminate].
+    unfold decode_continue in Hc. apply andb_true_iff in Hc. destruct Hc as [Hc _]. apply Nat.leb_le in Hc. lia.
+  - destruct (decode_continue b pos s) eqn:Hc; [|discriminate].
+    destruct (decode_field b pos s) as [[next s']| | |] eqn:Hf; try discriminate.
+    + pose proof (decode_field_next _ _ _ _ _ Hf) as [Hl [Hn _]]. apply IH. lia.
+    + unfold decode_field in Hf.
+      destruct (be16 b (pos + 2) <? 4); [discriminate|].
+      destruct (be16 b pos =? extUniqueIdentifier); [destruct (be16 b (pos + 2) - 4 <? 32); discriminate|].
+      destruct (be16 b pos =? extAuthenticator); [destruct (unpack_auth b (pos + 4)); discriminate|].
+      destruct (be16 b pos =? extCookie); [discriminate|].
+      destruct (be16 b pos =? extCookiePlaceholder); discriminate.
+Qed.
+
+Theorem decode_packet_fuel : forall b, decode_packet b <> OutOfFuel.
+Proof.
+  intros b. unfold decode_packet. destruct (MaxPacketLen <? length b)%nat; [discriminate|].
+  pose proof (decode_loop_fuel (length b) b ntpPacketLen dstate0) as H. fold dstate0.
+  destruct (decode_loop (length b) b ntpPacketLen dstate0) as [s| | |]; try discriminate.
+  - destruct (negb (d_uid s)); [discriminate|]. destruct (negb (d_auth s)); discriminate.
+  - exfalso. apply H; auto. unfold ntpPacketLen. lia.
+Qed.
+
+Lemma take_pad_length : forall n (l : bytes), length (take_pad n l) = n.
+Proof. intros. unfold take_pad. rewrite app_length, firstn_length, repeat_length. lia. Qed.
+
+(* what DecodePacket = Ok says about the bytes *)
+Record wire_ok (b : bytes) (p : packet) : Prop := {
+  w_len : (length b <= MaxPacketLen)%nat;
+  w_pos_lo : (ntpPacketLen <= p_pos p)%nat;
+  w_pos_hi : (p_pos p + 28 <= length b)%nat;
+  w_type : be16 b (p_pos p) = extAuthenticator;
+  w_auth : (p_nonce p, p_ct p) = unpack_auth b (p_pos p + 4);
+  w_fields : prefix_fields (firstn (p_pos p) b) (p_uid p, p_cookies p, p_nph p, true)
+}.
+
+Theorem decode_packet_spec : forall b p, decode_packet b = Ok p -> wire_ok b p.
+Proof.
+  intros b p H. unfold decode_packet in H.
+  destruct (MaxPacketLen <? length b)%nat eqn:Hl; [discriminate|]. apply Nat.ltb_ge in Hl.
+  fold dstate0 in H.
+  destruct (decode_loop (length b) b ntpPacketLen dstate0) as [s| | |] eqn:Hd; try discriminate.
+  destruct (d_uid s) eqn:Hu; simpl in H; [|discriminate].
+  destruct (d_auth s) eqn:Ha; simpl in H; [|discriminate].
+  inversion H; subst p.
+  pose proof (decode_loop_scan _ _ _ _ _ Hd eq_refl Ha) as [I1 [I2 [I3 [I4 [I5 [s1 [I6 I7]]]]]]].
+  constructor; auto.
+  exists (length b), s1. split; auto. rewrite I7. unfold core. rewrite Hu. reflexivity.
+Qed.
+
+(* with a 16-byte nonce the authenticator's nonce and ciphertext are these bytes of b *)
+Lemma wire_auth_16 : forall b p, wire_ok b p -> length (p_nonce p) = 16%nat ->
+  Z.to_nat (be16 b (p_pos p + 4)) = 16%nat /\
+  p_nonce p = take_pad 16 (skipn (p_pos p + 8) b) /\
+  p_ct p = take_pad (Z.to_nat (be16 b (p_pos p + 6))) (skipn (p_pos p + 24) b).
+Proof.
+  intros b p W Hn. destruct W as [_ _ Hhi _ Ha _]. unfold unpack_auth in Ha.
+  inversion Ha as [[E1 E2]]. clear Ha.
+  assert (Hl : Z.to_nat (be16 b (p_pos p + 4 + 0)) = 16%nat).
+  { rewrite Nat.add_0_r. rewrite E1 in Hn. rewrite take_pad_length in Hn. exact Hn. }
+  rewrite Nat.add_0_r in Hl. rewrite Hl in *.
+  replace (p_pos p + 4 + 4)%nat with (p_pos p + 8)%nat in * by lia.
+  replace (p_pos p + 4 + 2)%nat with (p_pos p + 6)%nat in * by lia.
+  replace (p_pos p + 8 + Nat.min 16 (length b - (p_pos p + 8)))%nat with (p_pos p + 24)%nat in E2 by lia.
+  auto.
+Qed.
+
+Section Soundness.
+  Variable seal : bytes -> bytes -> option bytes -> bytes -> bytes.
+  Variable open : bytes -> bytes -> option bytes -> bytes -> option bytes.
+  Hypothesis open_only_seal : forall k n ad c p, open k n ad c = Some p -> c = seal k n ad p.
+  Hypothesis seal_inj : forall k n ad p k' n' ad' p',
+    seal k n ad p = seal k' n' ad' p' -> k = k' /\ n = n' /\ ad = ad' /\ p = p'.
+
+  (* "the authenticator of b verifies under key over exactly the bytes that
+     precede it": b decodes to p, whose authenticator field starts at p_pos p,
+     and its ciphertext is the seal under key and its nonce of b[:p_pos p] *)
+  Definition verifies (b key : bytes) (p : packet) : Prop :=
+    decode_packet b = Ok p /\ wire_ok b p /\ key_ok key = true /\ length (p_nonce p) = 16%nat /\
+    exists pt, p_ct p = seal key (p_nonce p) (Some (firstn (p_pos p) b)) pt.
+
+  Theorem server_sound : forall b key p',
+    server_accept open b key = Ok p' -> exists p, verifies b key p.
+  Proof.
+    intros b key p' H. unfold server_accept in H.
+    destruct (decode_packet b) as [p| | |] eqn:Hd; try discriminate.
+    unfold process_request in H.
+    pose proof (authenticate_sound seal open open_only_seal _ _ _ _ H) as [Hk [Hn [_ Hs]]].
+    exists p. unfold verifies. split; [exact Hd|]. split; [apply decode_packet_spec; auto|].
+    split; [auto|]. split; auto.
+  Qed.
+
+  Theorem client_sound : forall b key reqID p',
+    client_accept open b key reqID = Ok p' ->
+    exists p, verifies b key p /\ p_uid p = reqID.
+  Proof.
+    intros b key reqID p' H. unfold client_accept in H.
+    destruct (decode_packet b) as [p| | |] eqn:Hd; try discriminate.
+    unfold process_response in H.
+    destruct (bytes_eqb reqID (p_uid p)) eqn:Hu; simpl in H; [|discriminate].
+    apply bytes_eqb_eq in Hu.
+    pose proof (authenticate_sound seal open open_only_seal _ _ _ _ H) as [Hk [Hn [_ Hs]]].
+    exists p. split; auto. unfold verifies. split; [exact Hd|]. split; [apply decode_packet_spec; auto|].
+    split; [auto|]. split; auto.
+  Qed.
+
+  (* non-malleability: two packets that verify and carry the same ciphertext
+     were verified under the same key, carry the same nonce and the same
+     authenticated bytes, hence the same unique identifier, cookies and
+     placeholders *)
+  Theorem same_ciphertext : forall b1 k1 p1 b2 k2 p2,
+    verifies b1 k1 p1 -> verifies b2 k2 p2 -> p_ct p1 = p_ct p2 ->
+    k1 = k2 /\ p_nonce p1 = p_nonce p2 /\ p_pos p1 = p_pos p2 /\
+    firstn (p_pos p1) b1 = firstn (p_pos p1) b2 /\
+    p_uid p1 = p_uid p2 /\ p_cookies p1 = p_cookies p2 /\ p_nph p1 = p_nph p2.
+  Proof.
+    intros b1 k1 p1 b2 k2 p2 [_ [W1 [_ [_ [pt1 E1]]]]] [_ [W2 [_ [_ [pt2 E2]]]]] Hc.
+    rewrite E1, E2 in Hc. apply seal_inj in Hc. destruct Hc as [Hk [Hn [Had _]]].
+    inversion Had as [Hpre].
+    assert (Hpos : p_pos p1 = p_pos p2).
+    { apply (f_equal (@length Z)) in Hpre. rewrite !firstn_length in Hpre.
+      destruct W1 as [_ _ H1 _ _ _]. destruct W2 as [_ _ H2 _ _ _]. lia. }
+    assert (Hf : (p_uid p1, p_cookies p1, p_nph p1, true) = (p_uid p2, p_cookies p2, p_nph p2, true)).
+    { destruct W1 as [_ _ _ _ _ F1]. destruct W2 as [_ _ _ _ _ F2]. rewrite <- Hpre in F2.
+      eapply prefix_fields_fun; eauto. }
+    inversion Hf. rewrite <- Hpos in Hpre. repeat split; auto.
+  Qed.
+End Soundness.
+
+(* ------------- cookies: TLV round trip, seal/open ------------- *)
+Ltac Zify.zify_post_hook ::= Z.div_mod_to_equations.
+
+Lemma nthz_app_r : forall (pre rest : bytes) i, nthz (pre ++ rest) (length pre + i) = nthz rest i.
+Proof. intros. unfold nthz. rewrite app_nth2 by lia. f_equal. lia. Qed.
+
+Lemma be16_app : forall pre x y rest, be16 (pre ++ x :: y :: rest) (length pre) = x * 256 + y.
+Proof.
+  intros. unfold be16.
+  replace (length pre) with (length pre + 0)%nat at 1 by lia. rewrite nthz_app_r.
+  replace (S (length pre)) with (length pre + 1)%nat by lia. rewrite nthz_app_r. reflexivity.
+Qed.
+
+Lemma be16_app_r : forall (pre rest : bytes) pos, pos = length pre -> be16 (pre ++ rest) pos = be16 rest 0.
+Proof.
+  intros. subst. unfold be16.
+  replace (length pre) with (length pre + 0)%nat at 1 by lia. rewrite nthz_app_r.
+  replace (S (length pre)) with (length pre + 1)%nat by lia. rewrite nthz_app_r. reflexivity.
+Qed.
+
+Lemma enc16_val : forall v, 0 <= v < 65536 -> (v / 256) mod 256 * 256 + v mod 256 = v.
+Proof. intros. lia. Qed.
+
+Lemma be16_enc16 : forall pre v rest, 0 <= v < 65536 -> be16 (pre ++ enc16 v ++ rest) (length pre) = v.
+Proof. intros. unfold enc16. simpl app. rewrite be16_app. apply enc16_val. auto. Qed.
+
+Lemma be16_enc16_at : forall pre v rest pos, 0 <= v < 65536 -> pos = length pre -> be16 (pre ++ enc16 v ++ rest) pos = v.
+Proof. intros. subst. apply be16_enc16. auto. Qed.
+
+Lemma skipn_app_exact : forall (pre rest : bytes) n, n = length pre -> skipn n (pre ++ rest) = rest.
+Proof. intros. subst. rewrite skipn_app, skipn_all, Nat.sub_diag. reflexivity. Qed.
+
+Lemma firstn_app_exact : forall (v rest : bytes) n, n = length v -> firstn n (v ++ rest) = v.
+Proof. intros. subst. rewrite firstn_app, firstn_all, Nat.sub_diag. simpl. apply app_nil_r. Qed.
+
+Lemma lenz_range : forall (v : bytes), lenz v < 65536 -> 0 <= lenz v < 65536.
+Proof. intros v H. unfold lenz in *. lia. Qed.
+
+Lemma enc16_length : forall v, length (enc16 v) = 2%nat.
+Proof. reflexivity. Qed.
+
+(* one TLV of the cookie encodings, in place *)
+Lemma tlv_shape : forall pre t v rest b,
+  b = pre ++ enc16 t ++ enc16 (lenz v) ++ v ++ rest -> 0 <= t < 65536 -> lenz v < 65536 ->
+  be16 b (length pre) = t /\ Z.to_nat (be16 b (length pre + 2)) = length v /\
+  firstn (length v) (skipn (length pre + 4) b) = v /\
+  (length pre + 4 + length v <= length b)%nat /\
+  be16 b (length pre + 4) = be16 (v ++ rest) 0.
+Proof.
+  intros pre t v rest b Hb Ht Hv. subst b.
+  split; [apply be16_enc16; auto|].
+  split.
+  { replace (pre ++ enc16 t ++ enc16 (lenz v) ++ v ++ rest) with ((pre ++ enc16 t) ++ enc16 (lenz v) ++ v ++ rest)
+      by (rewrite <- app_assoc; reflexivity).
+    rewrite be16_enc16_at; [unfold lenz; lia|apply lenz_range; auto|rewrite app_length, enc16_length; lia]. }
+  assert (E : skipn (length pre + 4) (pre ++ enc16 t ++ enc16 (lenz v) ++ v ++ rest) = v ++ rest).
+  { replace (pre ++ enc16 t ++ enc16 (lenz v) ++ v ++ rest) with ((pre ++ enc16 t ++ enc16 (lenz v)) ++ v ++ rest)
+      by (rewrite <- !app_assoc; reflexivity).
+    apply skipn_app_exact. rewrite !app_length, !enc16_length; lia. }
+  split; [rewrite E; apply firstn_app_exact; auto|].
+  split; [rewrite !app_length, !enc16_length; lia|].
+  replace (pre ++ enc16 t ++ enc16 (lenz v) ++ v ++ rest) with ((pre ++ enc16 t ++ enc16 (lenz v)) ++ v ++ rest)
+      by (rewrite <- !app_assoc; reflexivity).
+  apply be16_app_r. rewrite !app_length, !enc16_length; lia.
+Qed.
+
+Lemma tlv_loop_unfold : forall fuel t1 t2 t3 b pos s,
+  tlv_loop fuel t1 t2 t3 b pos s =
+  if (pos <? length b)%nat then
+    match fuel with
+    | O => OutOfFuel
+    | S f =>
+        if (length b - pos <? 4)%nat then Err ECookieData else
+        let t := be16 b pos in
+        let l := Z.to_nat (be16 b (pos + 2)) in
+        if (length b - pos - 4 <? l)%nat then Err ECookieData else
+        let v := firstn l (skipn (pos + 4) b) in
+        if t =? t1 then
+          if (l <? 2)%nat then Err ECookieData else
+          tlv_loop f t1 t2 t3 b (pos + 4 + l)
+            {| v1 := be16 b (pos + 4); v2 := v2 s; v3 := v3 s; f1 := true; f2 := f2 s; f3 := f3 s |}
+        else if t =? t2 then
+          tlv_loop f t1 t2 t3 b (pos + 4 + l)
+            {| v1 := v1 s; v2 := v; v3 := v3 s; f1 := f1 s; f2 := true; f3 := f3 s |}
+        else if t =? t3 then
+          tlv_loop f t1 t2 t3 b (pos + 4 + l)
+            {| v1 := v1 s; v2 := v2 s; v3 := v; f1 := f1 s; f2 := f2 s; f3 := true |}
+        else tlv_loop f t1 t2 t3 b (pos + 4 + l) s
+    end
+  else if negb (pos =? length b)%nat then Err ECookieData
+  else if negb (f1 s && f2 s && f3 s) then Err ECookieData
+  else Ok s.
+Proof. destruct fuel; reflexivity. Qed.
+
+Lemma tlv_step : forall f t1 t2 t3 b pos s t v,
+  be16 b pos = t -> Z.to_nat (be16 b (pos + 2)) = length v ->
+  firstn (length v) (skipn (pos + 4) b) = v -> (pos + 4 + length v <= length b)%nat ->
+  tlv_loop (S f) t1 t2 t3 b pos s =
+  if t =? t1 then
+    if (length v <? 2)%nat then Err ECookieData else
+    tlv_loop f t1 t2 t3 b (pos + 4 + length v)
+      {| v1 := be16 b (pos + 4); v2 := v2 s; v3 := v3 s; f1 := true; f2 := f2 s; f3 := f3 s |}
+  else if t =? t2 then
+    tlv_loop f t1 t2 t3 b (pos + 4 + length v)
+      {| v1 := v1 s; v2 := v; v3 := v3 s; f1 := f1 s; f2 := true; f3 := f3 s |}
+  else if t =? t3 then
+    tlv_loop f t1 t2 t3 b (pos + 4 + length v)
+      {| v1 := v1 s; v2 := v2 s; v3 := v; f1 := f1 s; f2 := f2 s; f3 := true |}
+  else tlv_loop f t1 t2 t3 b (pos + 4 + length v) s.
+Proof.
+  intros f t1 t2 t3 b pos s t v Ht Hl Hv Hb.
+  rewrite tlv_loop_unfold.
+  replace (pos <? length b)%nat with true by (symmetry; apply Nat.ltb_lt; lia).
+  replace (length b - pos <? 4)%nat with false by (symmetry; apply Nat.ltb_ge; lia).
+  cbv zeta. rewrite Ht, Hl, Hv.
+  replace (length b - pos - 4 <? length v)%nat with false by (symmetry; apply Nat.ltb_ge; lia).
+  reflexivity.
+Qed.
+
+Definition wf16 (x : Z) : Prop := 0 <= x < 65536.
+
+Theorem tlv_roundtrip : forall t1 t2 t3 x a c,
+  wf16 t1 -> wf16 t2 -> wf16 t3 -> t1 <> t2 -> t1 <> t3 -> t2 <> t3 ->
+  wf16 x -> lenz a < 65536 -> lenz c < 65536 ->
+  tlv_decode t1 t2 t3 (tlv_encode t1 t2 t3 x a c) =
+  Ok {| v1 := x; v2 := a; v3 := c; f1 := true; f2 := true; f3 := true |}.
+Proof.
+  intros t1 t2 t3 x a c W1 W2 W3 N12 N13 N23 Wx La Lc.
+  unfold tlv_decode. set (b := tlv_encode t1 t2 t3 x a c).
+  assert (U16a : u16 (lenz a) = lenz a) by (unfold u16, lenz in *; rewrite Z.mod_small; lia).
+  assert (U16c : u16 (lenz c) = lenz c) by (unfold u16, lenz in *; rewrite Z.mod_small; lia).
+  (* the three TLVs *)
+  assert (S1 : b = [] ++ enc16 t1 ++ enc16 (lenz (enc16 x)) ++ enc16 x ++
+                   (enc16 t2 ++ enc16 (lenz a) ++ a ++ enc16 t3 ++ enc16 (lenz c) ++ c)).
+  { unfold b, tlv_encode. rewrite U16a, U16c. reflexivity. }
+  assert (S2 : b = (enc16 t1 ++ enc16 2 ++ enc16 x) ++ enc16 t2 ++ enc16 (lenz a) ++ a ++
+                   (enc16 t3 ++ enc16 (lenz c) ++ c)).
+  { unfold b, tlv_encode. rewrite U16a, U16c. rewrite <- !app_assoc. reflexivity. }
+  assert (S3 : b = (enc16 t1 ++ enc16 2 ++ enc16 x ++ enc16 t2 ++ enc16 (lenz a) ++ a) ++ enc16 t3 ++ enc16 (lenz c) ++ c ++ []).
+  { unfold b, tlv_encode. rewrite U16a, U16c. rewrite <- !app_assoc. rewrite app_nil_r. reflexivity. }
+  assert (LB : length b = (14 + length a + length c)%nat).
+  { unfold b, tlv_encode. rewrite !app_length, !enc16_length; lia. }
+  destruct (tlv_shape _ _ _ _ _ S1 W1 ltac:(unfold lenz; simpl; lia)) as [A1 [A2 [A3 [A4 A5]]]].
+  destruct (tlv_shape _ _ _ _ _ S2 W2 La) as [B1 [B2 [B3 [B4 _]]]].
+  destruct (tlv_shape _ _ _ _ _ S3 W3 Lc) as [C1 [C2 [C3 [C4 _]]]].
+  set (P2 := enc16 t1 ++ enc16 2 ++ enc16 x) in *.
+  set (P3 := enc16 t1 ++ enc16 2 ++ enc16 x ++ enc16 t2 ++ enc16 (lenz a) ++ a) in *.
+  assert (L2 : length P2 = 6%nat) by reflexivity.
+  assert (L3 : length P3 = (10 + length a)%nat) by (unfold P3; rewrite !app_length, !enc16_length; lia).
+  fold b.
+  assert (F : length b = S (S (S (11 + length a + length c)))) by lia.
+  rewrite F.
+  rewrite (tlv_step _ t1 t2 t3 b (length (@nil Z)) tlv0 t1 (enc16 x) A1 A2 A3 A4).
+  rewrite Z.eqb_refl.
+  replace (length (enc16 x) <? 2)%nat with false by reflexivity.
+  rewrite A5.
+  assert (V1 : be16 (enc16 x ++ enc16 t2 ++ enc16 (lenz a) ++ a ++ enc16 t3 ++ enc16 (lenz c) ++ c) 0 = x).
+  { apply (be16_enc16 [] x). exact Wx. }
+  rewrite V1.
+  replace (length (@nil Z) + 4 + length (enc16 x))%nat with (length P2) by reflexivity.
+  rewrite (tlv_step _ t1 t2 t3 b (length P2) _ t2 a B1 B2 B3 B4).
+  replace (t2 =? t1) with false by (symmetry; apply Z.eqb_neq; auto).
+  rewrite Z.eqb_refl. cbv [v1 v2 v3 f1 f2 f3 tlv0].
+  replace (length P2 + 4 + length a)%nat with (length P3) by lia.
+  rewrite (tlv_step _ t1 t2 t3 b (length P3) _ t3 c C1 C2 C3 C4).
+  replace (t3 =? t1) with false by (symmetry; apply Z.eqb_neq; auto).
+  replace (t3 =? t2) with false by (symmetry; apply Z.eqb_neq; auto).
+  rewrite Z.eqb_refl. cbv [v1 v2 v3 f1 f2 f3].
+  rewrite tlv_loop_unfold.
+  replace (length P3 + 4 + length c)%nat with (length b) by lia.
+  rewrite Nat.ltb_irrefl, Nat.eqb_refl. reflexivity.
+Qed.
+
+Definition wf_cookie (c : server_cookie) : Prop :=
+  wf16 (sc_algo c) /\ lenz (sc_s2c c) < 65536 /\ lenz (sc_c2s c) < 65536.
+Definition wf_ecookie (c : enc_cookie) : Prop :=
+  wf16 (ec_id c) /\ lenz (ec_nonce c) < 65536 /\ lenz (ec_ct c) < 65536.
+
+Theorem sc_roundtrip : forall c, wf_cookie c -> sc_decode (sc_encode c) = Ok c.
+Proof.
+  intros [al s c] [H1 [H2 H3]]. unfold sc_decode, sc_encode. simpl in *.
+  rewrite tlv_roundtrip; auto; unfold wf16, cookieTypeAlgorithm, cookieTypeKeyS2C, cookieTypeKeyC2S; try lia.
+Qed.
+
+Theorem ec_roundtrip : forall c, wf_ecookie c -> ec_decode (ec_encode c) = Ok c.
+Proof.
+  intros [al s c] [H1 [H2 H3]]. unfold ec_decode, ec_encode. simpl in *.
+  rewrite tlv_roundtrip; auto; unfold wf16, cookieTypeKeyID, cookieTypeNonce, cookieTypeCiphertext; try lia.
+Qed.
+
+Lemma tlv_loop_fuel : forall fuel t1 t2 t3 b pos s,
+  (length b < fuel + pos + 1)%nat -> tlv_loop fuel t1 t2 t3 b pos s <> OutOfFuel.
+Proof.
+  induction fuel as [|f IH]; intros t1 t2 t3 b pos s H; rewrite tlv_loop_unfold.
+  - replace (pos <? length b)%nat with false by (symmetry; apply Nat.ltb_ge; lia).
+    destruct (negb (pos =? length b)%nat); [discriminate|]. destruct (negb (f1 s && f2 s && f3 s)); discriminate.
+  - destruct (pos <? length b)%nat.
+    + destruct (length b - pos <? 4)%nat; [discriminate|]. cbv zeta.
+      destruct (length b - pos - 4 <? Z.to_nat (be16 b (pos + 2)))%nat; [discriminate|].
+      destruct (be16 b pos =? t1).
+      { destruct (Z.to_nat (be16 b (pos + 2)) <? 2)%nat; [discriminate|]. apply IH. lia. }
+      destruct (be16 b pos =? t2); [apply IH; lia|].
+      destruct (be16 b pos =? t3); apply IH; lia.
+    + destruct (negb (pos =? length b)%nat); [discriminate|]. destruct (negb (f1 s && f2 s && f3 s)); discriminate.
+Qed.
+
+Theorem tlv_decode_fuel : forall t1 t2 t3 b, tlv_decode t1 t2 t3 b <> OutOfFuel.
+Proof. intros. unfold tlv_decode. apply tlv_loop_fuel. lia. Qed.
+
+Section Cookies.
+  Variable seal : bytes -> bytes -> option bytes -> bytes -> bytes.
+  Variable open : bytes -> bytes -> option bytes -> bytes -> option bytes.
+  Hypothesis open_seal : forall k n ad p, open k n ad (seal k n ad p) = Some p.
+  Hypothesis open_only_seal : forall k n ad c p, open k n ad c = Some p -> c = seal k n ad p.
+  Hypothesis seal_inj : forall k n ad p k' n' ad' p',
+    seal k n ad p = seal k' n' ad' p' -> k = k' /\ n = n' /\ ad = ad' /\ p = p'.
+  Hypothesis seal_len : forall k n ad p, length (seal k n ad p) = (16 + length p)%nat.
+
+  (* a cookie issued by the project's own code opens under the key that sealed
+     it and yields exactly the sealed algorithm and keys *)
+  Theorem cookie_complete : forall c key keyid rnd cb,
+    wf_cookie c -> lenz (sc_s2c c) + lenz (sc_c2s c) < 65000 -> length rnd = 16%nat ->
+    cookie_seal seal c key keyid rnd = Ok cb ->
+    cookie_open open cb key = Ok c.
+  Proof.
+    intros c key keyid rnd cb Hw Hl Hr H. unfold cookie_seal, sc_encrypt in H.
+    destruct (key_ok key) eqn:Hk; simpl in H; [|discriminate]. inversion H; subst cb. clear H.
+    unfold cookie_open. rewrite ec_roundtrip.
+    - unfold ec_decrypt. simpl. rewrite Hk, Hr. simpl. rewrite open_seal. apply sc_roundtrip. auto.
+    - unfold wf_ecookie, wf16. simpl. split; [unfold u16; lia|]. split; [unfold lenz; lia|].
+      unfold lenz. rewrite seal_len. unfold sc_encode, tlv_encode. rewrite !app_length, !enc16_length.
+      unfold lenz in Hl. lia.
+  Qed.
+
+  (* whatever opens was sealed under the presented key with the cookie's nonce *)
+  Theorem cookie_sound : forall cb key c,
+    cookie_open open cb key = Ok c ->
+    exists ec pt, ec_decode cb = Ok ec /\ key_ok key = true /\ length (ec_nonce ec) = 16%nat /\
+                  ec_ct ec = seal key (ec_nonce ec) None pt /\ sc_decode pt = Ok c.
+  Proof.
+    intros cb key c H. unfold cookie_open in H.
+    destruct (ec_decode cb) as [ec| | |] eqn:Hd; try discriminate.
+    unfold ec_decrypt in H.
+    destruct (key_ok key) eqn:Hk; simpl in H; [|discriminate].
+    destruct (length (ec_nonce ec) =? 16)%nat eqn:Hn; simpl in H; [|discriminate].
+    destruct (open key (ec_nonce ec) None (ec_ct ec)) as [pt|] eqn:Ho; [|discriminate].
+    exists ec, pt. apply Nat.eqb_eq in Hn. repeat split; auto.
+  Qed.
+
+  (* a cookie opens only under the server key that sealed it and yields exactly
+     the sealed algorithm and keys: if the ciphertext inside the presented
+     bytes is the one sealed under key0 for contents c0, then a successful
+     opening used key0, found the sealing nonce, and returns c0 *)
+  Theorem cookie_only_sealing_key : forall cb key c ec key0 n0 c0,
+    cookie_open open cb key = Ok c -> ec_decode cb = Ok ec ->
+    ec_ct ec = seal key0 n0 None (sc_encode c0) -> wf_cookie c0 ->
+    key = key0 /\ ec_nonce ec = n0 /\ c = c0.
+  Proof.
+    intros cb key c ec key0 n0 c0 H Hd Hc Hw.
+    destruct (cookie_sound _ _ _ H) as [ec' [pt [Hd' [_ [_ [Hs Hp]]]]]].
+    rewrite Hd in Hd'. inversion Hd'; subst ec'. rewrite Hc in Hs.
+    apply seal_inj in Hs. destruct Hs as [Hk [Hn [_ Hpt]]].
+    subst pt. rewrite sc_roundtrip in Hp by auto. inversion Hp. auto.
+  Qed.
+End Cookies.
+
+(* ------------- the property oracle accepts the model ------------- *)
+Section Oracle.
+  Variable seal : bytes -> bytes -> option bytes -> bytes -> bytes.
+  Variable open : bytes -> bytes -> option bytes -> bytes -> option bytes.
+  Hypothesis open_seal : forall k n ad p, open k n ad (seal k n ad p) = Some p.
+  Hypothesis open_only_seal : forall k n ad c p, open k n ad c = Some p -> c = seal k n ad p.
+  Hypothesis seal_inj : forall k n ad p k' n' ad' p',
+    seal k n ad p = seal k' n' ad' p' -> k = k' /\ n = n' /\ ad = ad' /\ p = p'.
+  Hypothesis seal_len : forall k n ad p, length (seal k n ad p) = (16 + length p)%nat.
+
+  Definition model_accepts (b key : bytes) (dir : Z) (reqid : bytes) : bool :=
+    match (if dir =? 0 then server_accept open b key else client_accept open b key reqid) with
+    | Ok _ => true
+    | _ => false
+    end.
+
+  (* what "honest" means for the description of a sent packet *)
+  Record honest_ok (h : honest) : Prop := {
+    ho_nonce : length (h_nonce h) = 16%nat;
+    ho_pos : (h_pos h <= length (h_bytes h))%nat;
+    ho_ct : exists pt, h_ct h = seal (h_key h) (h_nonce h) (Some (firstn (h_pos h) (h_bytes h))) pt;
+    ho_uid : exists cs n, prefix_fields (firstn (h_pos h) (h_bytes h)) (h_uid h, cs, n, true)
+  }.
+
+  (* the receiver (key, dir) is only ever sent seals that honest senders of
+     its direction made: no party without the key can produce a seal under it *)
+  Definition unforgeable (hs : list honest) (b key : bytes) (dir : Z) : Prop :=
+    forall p n ad pt, decode_packet b = Ok p -> p_ct p = seal key n ad pt ->
+      exists h, In h hs /\ h_ct h = p_ct p /\ h_dir h = dir.
+
+  Lemma to_nat_pos : forall x n, Z.to_nat x = n -> (0 < n)%nat -> x = Z.of_nat n.
+  Proof. intros. lia. Qed.
+
+  Lemma accepted_justified : forall hs b key dir reqid,
+    (forall h, In h hs -> honest_ok h) -> unforgeable hs b key dir ->
+    model_accepts b key dir reqid = true ->
+    existsb (justifies b key dir reqid) hs = true.
+  Proof.
+    intros hs b key dir reqid Hh Hu Ha. unfold model_accepts in Ha.
+    assert (V : exists p, verifies seal b key p /\ (dir =? 0 = false -> p_uid p = reqid)).
+    { destruct (dir =? 0) eqn:Hd.
+      - destruct (server_accept open b key) as [p'| | |] eqn:E; try discriminate.
+        destruct (server_sound seal open open_only_seal _ _ _ E) as [p Hp]. exists p. split; auto. discriminate.
+      - destruct (client_accept open b key reqid) as [p'| | |] eqn:E; try discriminate.
+        destruct (client_sound seal open open_only_seal _ _ _ _ E) as [p [Hp Hq]]. exists p. split; auto. }
+    destruct V as [p [[Hd [W [Hk [Hn [pt Hc]]]]] Huid]].
+    destruct (Hu p _ _ _ Hd Hc) as [h [Hin [Hct Hdir]]].
+    destruct (Hh h Hin) as [Gn Gp [hpt Gc] [gcs [gn Gu]]].
+    rewrite Gc, Hc in Hct. apply seal_inj in Hct. destruct Hct as [Ek [En [Ead Ept]]].
+    inversion Ead as [Epre].
+    assert (Epos : h_pos h = p_pos p).
+    { apply (f_equal (@length Z)) in Epre. rewrite !firstn_length in Epre.
+      destruct W as [_ _ H1 _ _ _]. lia. }
+    destruct (wire_auth_16 _ _ W Hn) as [A1 [A2 A3]].
+    apply existsb_exists. exists h. split; auto.
+    unfold justifies, untampered. rewrite Epos.
+    assert (T1 : bytes_eqb (h_key h) key = true) by (apply bytes_eqb_eq; auto).
+    assert (T2 : (h_dir h =? dir) = true) by (apply Z.eqb_eq; auto).
+    assert (T3 : (p_pos p <=? length b)%nat = true) by (apply Nat.leb_le; destruct W as [_ _ H1 _ _ _]; lia).
+    assert (T4 : bytes_eqb (firstn (p_pos p) b) (firstn (p_pos p) (h_bytes h)) = true).
+    { apply bytes_eqb_eq. rewrite <- Epos at 2. rewrite Epre. reflexivity. }
+    assert (T5 : (be16 b (p_pos p + 4) =? lenz (h_nonce h)) = true).
+    { apply Z.eqb_eq. unfold lenz. rewrite Gn. apply to_nat_pos in A1; [|lia]. exact A1. }
+    assert (Ect : h_ct h = p_ct p) by (rewrite Gc, Hc; congruence).
+    assert (T6 : (be16 b (p_pos p + 6) =? lenz (h_ct h)) = true).
+    { apply Z.eqb_eq. unfold lenz. rewrite Ect.
+      pose proof (f_equal (@length Z) A3) as L. rewrite take_pad_length in L.
+      symmetry in L. apply to_nat_pos in L; [exact L|]. rewrite Hc, seal_len. lia. }
+    assert (T7 : bytes_eqb (take_pad (length (h_nonce h)) (skipn (p_pos p + 8) b)) (h_nonce h) = true).
+    { apply bytes_eqb_eq. rewrite Gn. rewrite <- A2. auto. }
+    assert (T8 : bytes_eqb (take_pad (length (h_ct h)) (skipn (p_pos p + 8 + length (h_nonce h)) b)) (h_ct h) = true).
+    { apply bytes_eqb_eq. rewrite Gn. replace (p_pos p + 8 + 16)%nat with (p_pos p + 24)%nat by lia.
+      pose proof (f_equal (@length Z) A3) as L. rewrite take_pad_length in L.
+      rewrite Ect, L. symmetry. exact A3. }
+    rewrite T1, T2, T3, T4, T5, T6, T7, T8. simpl.
+    destruct (dir =? 1) eqn:D1; auto.
+    apply bytes_eqb_eq. apply Z.eqb_eq in D1.
+    assert (D0 : dir =? 0 = false) by (apply Z.eqb_neq; lia).
+    rewrite <- (Huid D0).
+    destruct W as [_ _ _ _ _ F]. rewrite Epre in Gu.
+    pose proof (prefix_fields_fun _ _ _ Gu F) as X. inversion X. reflexivity.
+  Qed.
+
+  (* the executable property oracle accepts what the model does with any
+     datagram, for honest senders and an adversary that cannot forge seals *)
+  Theorem model_meets_packet_oracle : forall hs b key dir reqid,
+    (forall h, In h hs -> honest_ok h) -> unforgeable hs b key dir ->
+    (forall h, In h hs -> model_accepts (h_bytes h) (h_key h) (h_dir h) (h_uid h) = true) ->
+    (dir = 0 \/ dir = 1) ->
+    C10_packet_ok hs b key dir reqid (model_accepts b key dir reqid) = true.
+  Proof.
+    intros hs b key dir reqid Hh Hu Hc Hd. unfold C10_packet_ok. apply andb_true_iff. split.
+    - destruct (model_accepts b key dir reqid) eqn:E; auto. apply accepted_justified; auto.
+    - destruct (existsb (is_honest b key dir reqid) hs) eqn:E; auto.
+      apply existsb_exists in E. destruct E as [h [Hin E]]. unfold is_honest in E.
+      apply andb_true_iff in E. destruct E as [E E4]. apply andb_true_iff in E. destruct E as [E E3].
+      apply andb_true_iff in E. destruct E as [E1 E2].
+      apply bytes_eqb_eq in E1. apply bytes_eqb_eq in E2. apply Z.eqb_eq in E3.
+      specialize (Hc h Hin). rewrite E1, E2, E3 in Hc.
+      destruct Hd as [Hd|Hd]; subst dir.
+      + unfold model_accepts in *. simpl in *. exact Hc.
+      + simpl in E4. apply bytes_eqb_eq in E4. rewrite E4 in Hc. exact Hc.
+  Qed.
+End Oracle.
+
+(* ------------- corollaries ------------- *)
+Lemma plain_loop_fuel : forall fuel b pos cs,
+  (length b < fuel + pos + 28)%nat -> plain_loop fuel b pos cs <> OutOfFuel.
+Proof.
+  induction fuel as [|f IH]; intros b pos cs H; simpl.
+  - destruct (pos + 28 <=? length b)%nat eqn:Hc; [apply Nat.leb_le in Hc; lia|discriminate].
+  - destruct (pos + 28 <=? length b)%nat eqn:Hc; [|discriminate].
+    destruct (be16 b (pos + 2) <? 4) eqn:Hl; [discriminate|]. apply Z.ltb_ge in Hl.
+    apply IH. lia.
+Qed.
+
+Theorem authenticate_fuel : forall open b key p, authenticate open b key p <> OutOfFuel.
+  Proof.
+    intros open b key p. unfold authenticate.
+    destruct (negb (key_ok key)); [discriminate|].
+    destruct (negb (length (p_nonce p) =? 16)%nat); [discriminate|].
+    destruct (length b <? p_pos p)%nat; [discriminate|].
+    destruct (open key (p_nonce p) (Some (firstn (p_pos p) b)) (p_ct p)) as [pt|]; [|discriminate].
+    pose proof (plain_loop_fuel (length pt) pt 0 (p_cookies p)) as H.
+    destruct (plain_loop (length pt) pt 0 (p_cookies p)); try discriminate. exfalso. apply H; auto. lia.
+  Qed.
+
+Section More.
+  Variable seal : bytes -> bytes -> option bytes -> bytes -> bytes.
+  Variable open : bytes -> bytes -> option bytes -> bytes -> option bytes.
+  Hypothesis open_seal : forall k n ad p, open k n ad (seal k n ad p) = Some p.
+  Hypothesis open_only_seal : forall k n ad c p, open k n ad c = Some p -> c = seal k n ad p.
+  Hypothesis seal_inj : forall k n ad p k' n' ad' p',
+    seal k n ad p = seal k' n' ad' p' -> k = k' /\ n = n' /\ ad = ad' /\ p = p'.
+  Hypothesis seal_len : forall k n ad p, length (seal k n ad p) = (16 + length p)%nat.
+
+
+  (* completeness of the authentication step: a packet whose authenticator
+     carries the seal under the receiver's key of the bytes in front of it is
+     accepted, provided the decrypted fields are well formed *)
+  Theorem authenticate_complete : forall b key p pt cs,
+    key_ok key = true -> length (p_nonce p) = 16%nat -> (p_pos p <= length b)%nat ->
+    p_ct p = seal key (p_nonce p) (Some (firstn (p_pos p) b)) pt ->
+    plain_loop (length pt) pt 0 (p_cookies p) = Ok cs ->
+    authenticate open b key p =
+      Ok {| p_uid := p_uid p; p_cookies := cs; p_nph := p_nph p; p_nonce := p_nonce p; p_ct := p_ct p; p_pos := p_pos p |}.
+  Proof.
+    intros b key p pt cs Hk Hn Hp Hc Hl. unfold authenticate.
+    rewrite Hk, Hn. simpl.
+    replace (length b <? p_pos p)%nat with false by (symmetry; apply Nat.ltb_ge; lia).
+    rewrite Hc, open_seal, Hl. reflexivity.
+  Qed.
+
+  (* any change to an authenticated byte, the nonce, or the use of a different
+     key is rejected: a datagram b2 carrying the ciphertext of a packet b1 that
+     verifies under k1 is rejected by every receiver (server, or client with any
+     outstanding identifier) unless key, nonce and authenticated bytes are those of b1 *)
+  Theorem tamper_rejected : forall b1 k1 p1 b2 k2 p2,
+    verifies seal b1 k1 p1 -> decode_packet b2 = Ok p2 -> p_ct p2 = p_ct p1 ->
+    (k2 <> k1 \/ p_nonce p2 <> p_nonce p1 \/ firstn (p_pos p1) b2 <> firstn (p_pos p1) b1) ->
+    (forall r, server_accept open b2 k2 <> Ok r) /\ (forall id r, client_accept open b2 k2 id <> Ok r).
+  Proof.
+    intros b1 k1 p1 b2 k2 p2 V1 D2 Hc Hne.
+    assert (X : forall p, verifies seal b2 k2 p -> False).
+    { intros p V2. assert (p = p2) by (destruct V2 as [D _]; congruence). subst p.
+      destruct (same_ciphertext seal seal_inj _ _ _ _ _ _ V1 V2 (eq_sym Hc)) as [A [B [C [D _]]]].
+      destruct Hne as [N|[N|N]]; apply N; auto. }
+    split.
+    - intros r H. destruct (server_sound seal open open_only_seal _ _ _ H) as [p V]. eauto.
+    - intros id r H. destruct (client_sound seal open open_only_seal _ _ _ _ H) as [p [V _]]. eauto.
+  Qed.
+
+  (* a client accepts only a response that carries the identifier of its outstanding request *)
+  Theorem client_rejects_other_request : forall b key p reqID r,
+    decode_packet b = Ok p -> p_uid p <> reqID -> client_accept open b key reqID <> Ok r.
+  Proof.
+    intros b key p reqID r D N H.
+    destruct (client_sound seal open open_only_seal _ _ _ _ H) as [q [[D' _] E]]. congruence.
+  Qed.
+
+  (* cookies: the oracle accepts what the model does *)
+  Definition cookie_result (cb key : bytes) : option server_cookie :=
+    match cookie_open open cb key with Ok c => Some c | _ => None end.
+
+  Theorem model_meets_cookie_oracle : forall c0 key0 keyid rnd cb0 cb key,
+    wf_cookie c0 -> lenz (sc_s2c c0) + lenz (sc_c2s c0) < 65000 -> length rnd = 16%nat ->
+    cookie_seal seal c0 key0 keyid rnd = Ok cb0 ->
+    (* no seal under the presented key other than the one of the issued cookie is in circulation *)
+    (forall ec n ad pt, ec_decode cb = Ok ec -> ec_ct ec = seal key n ad pt ->
+                        ec_ct ec = seal key0 rnd None (sc_encode c0)) ->
+    C10_cookie_ok cb0 key0 c0 cb key (cookie_result cb key) = true.
+  Proof.
+    intros c0 key0 keyid rnd cb0 cb key Hw Hl Hr Hs Hu. unfold C10_cookie_ok, cookie_result.
+    destruct (cookie_open open cb key) as [c| | |] eqn:Ho.
+    - destruct (cookie_sound seal open open_only_seal _ _ _ Ho) as [ec [pt [Hd [_ [_ [Hc _]]]]]].
+      pose proof (Hu _ _ _ _ Hd Hc) as Hc0.
+      destruct (cookie_only_sealing_key seal open open_only_seal seal_inj _ _ _ _ _ _ _ Ho Hd Hc0 Hw) as [A [_ B]].
+      subst. unfold sc_eqb. rewrite Z.eqb_refl.
+      assert (R : forall x, bytes_eqb x x = true) by (intro x; apply bytes_eqb_eq; reflexivity).
+      rewrite !R. reflexivity.
+    - destruct (bytes_eqb cb cb0) eqn:E1; simpl; auto. destruct (bytes_eqb key key0) eqn:E2; simpl; auto.
+      apply bytes_eqb_eq in E1. apply bytes_eqb_eq in E2. subst.
+      assert (Y : cookie_open open cb0 key0 = Ok c0) by (eapply cookie_complete; eauto). rewrite Y in Ho. discriminate.
+    - destruct (bytes_eqb cb cb0) eqn:E1; simpl; auto. destruct (bytes_eqb key key0) eqn:E2; simpl; auto.
+      apply bytes_eqb_eq in E1. apply bytes_eqb_eq in E2. subst.
+      assert (Y : cookie_open open cb0 key0 = Ok c0) by (eapply cookie_complete; eauto). rewrite Y in Ho. discriminate.
+    - destruct (bytes_eqb cb cb0) eqn:E1; simpl; auto. destruct (bytes_eqb key key0) eqn:E2; simpl; auto.
+      apply bytes_eqb_eq in E1. apply bytes_eqb_eq in E2. subst.
+      assert (Y : cookie_open open cb0 key0 = Ok c0) by (eapply cookie_complete; eauto). rewrite Y in Ho. discriminate.
+  Qed.
+End More.
+
+Section Export.
+  Variable export : bytes -> bytes -> bytes.
+  (* the exporter separates contexts: the ideal-PRF assumption for the TLS exporter *)
+  Hypothesis export_inj : forall l c c', export l c = export l c' -> c = c'.
+
+  Theorem directions_differ : fst (export_keys export) <> snd (export_keys export).
+  Proof. unfold export_keys. simpl. intro H. apply export_inj in H. discriminate. Qed.
+
+  Theorem export_oracle : let '(s2c, c2s) := export_keys export in C10_export_ok s2c c2s s2c c2s = true.
+  Proof.
+    unfold export_keys, C10_export_ok.
+    assert (R : forall x, bytes_eqb x x = true) by (intro x; apply bytes_eqb_eq; reflexivity).
+    rewrite !R. simpl.
+    destruct (bytes_eqb (export export_label c2s_context) (export export_label s2c_context)) eqn:E; auto.
+    apply bytes_eqb_eq in E. apply export_inj in E. discriminate.
+  Qed.
+End Export.
+
+(* ------------- the statements exported to Props/C10.v ------------- *)
+(* the symbolic (ideal) AEAD: Open inverts Seal, succeeds only on Seal's output
+   for the same key, nonce and associated data, Seal is injective, and the
+   ciphertext is 16 bytes longer than the plaintext *)
+Definition ideal_aead (seal : bytes -> bytes -> option bytes -> bytes -> bytes)
+                      (open : bytes -> bytes -> option bytes -> bytes -> option bytes) : Prop :=
+  (forall k n ad p, open k n ad (seal k n ad p) = Some p) /\
+  (forall k n ad c p, open k n ad c = Some p -> c = seal k n ad p) /\
+  (forall k n ad p k' n' ad' p', seal k n ad p = seal k' n' ad' p' -> k = k' /\ n = n' /\ ad = ad' /\ p = p') /\
+  (forall k n ad p, length (seal k n ad p) = (16 + length p)%nat).
+
+Lemma c10_sound_server : forall seal open, ideal_aead seal open ->
+  forall b key r, server_accept open b key = Ok r -> exists p, verifies seal b key p.
+Proof. intros seal open [A [B [C D]]]. intros. eapply server_sound; eauto. Qed.
+
+Lemma c10_sound_client : forall seal open, ideal_aead seal open ->
+  forall b key reqID r, client_accept open b key reqID = Ok r ->
+  exists p, verifies seal b key p /\ p_uid p = reqID.
+Proof. intros seal open [A [B [C D]]]. intros. eapply client_sound; eauto. Qed.
+
+Lemma c10_same_ciphertext : forall seal open, ideal_aead seal open ->
+  forall b1 k1 p1 b2 k2 p2,
+  verifies seal b1 k1 p1 -> verifies seal b2 k2 p2 -> p_ct p1 = p_ct p2 ->
+  k1 = k2 /\ p_nonce p1 = p_nonce p2 /\ p_pos p1 = p_pos p2 /\
+  firstn (p_pos p1) b1 = firstn (p_pos p1) b2 /\
+  p_uid p1 = p_uid p2 /\ p_cookies p1 = p_cookies p2 /\ p_nph p1 = p_nph p2.
+Proof. intros seal open [A [B [C D]]]. intros. eapply same_ciphertext; eauto. Qed.
+
+Lemma c10_tamper : forall seal open, ideal_aead seal open ->
+  forall b1 k1 p1 b2 k2 p2,
+  verifies seal b1 k1 p1 -> decode_packet b2 = Ok p2 -> p_ct p2 = p_ct p1 ->
+  (k2 <> k1 \/ p_nonce p2 <> p_nonce p1 \/ firstn (p_pos p1) b2 <> firstn (p_pos p1) b1) ->
+  (forall r, server_accept open b2 k2 <> Ok r) /\ (forall id r, client_accept open b2 k2 id <> Ok r).
+Proof. intros seal open [A [B [C D]]]. intros. eapply tamper_rejected; eauto. Qed.
+
+Lemma c10_wrong_uid : forall seal open, ideal_aead seal open ->
+  forall b key p reqID r,
+  decode_packet b = Ok p -> p_uid p <> reqID -> client_accept open b key reqID <> Ok r.
+Proof. intros seal open [A [B [C D]]]. intros. eapply client_rejects_other_request; eauto. Qed.
+
+Lemma c10_auth_complete : forall seal open, ideal_aead seal open ->
+  forall b key p pt cs,
+  key_ok key = true -> length (p_nonce p) = 16%nat -> (p_pos p <= length b)%nat ->
+  p_ct p = seal key (p_nonce p) (Some (firstn (p_pos p) b)) pt ->
+  plain_loop (length pt) pt 0 (p_cookies p) = Ok cs ->
+  authenticate open b key p =
+    Ok {| p_uid := p_uid p; p_cookies := cs; p_nph := p_nph p; p_nonce := p_nonce p; p_ct := p_ct p; p_pos := p_pos p |}.
+Proof. intros seal open [A [B [C D]]]. intros. eapply authenticate_complete; eauto. Qed.
+
+Lemma c10_cookie_complete : forall seal open, ideal_aead seal open ->
+  forall c key keyid rnd cb,
+  wf_cookie c -> lenz (sc_s2c c) + lenz (sc_c2s c) < 65000 -> length rnd = 16%nat ->
+  cookie_seal seal c key keyid rnd = Ok cb -> cookie_open open cb key = Ok c.
+Proof. intros seal open [A [B [C D]]]. intros. eapply cookie_complete; eauto. Qed.
+
+Lemma c10_cookie_sound : forall seal open, ideal_aead seal open ->
+  forall cb key c ec key0 n0 c0,
+  cookie_open open cb key = Ok c -> ec_decode cb = Ok ec ->
+  ec_ct ec = seal key0 n0 None (sc_encode c0) -> wf_cookie c0 ->
+  key = key0 /\ ec_nonce ec = n0 /\ c = c0.
+Proof. intros seal open [A [B [C D]]]. intros. eapply cookie_only_sealing_key; eauto. Qed.
+
+Lemma c10_packet_oracle : forall seal open, ideal_aead seal open ->
+  forall hs b key dir reqid,
+  (forall h, In h hs -> honest_ok seal h) -> unforgeable seal hs b key dir ->
+  (forall h, In h hs -> model_accepts open (h_bytes h) (h_key h) (h_dir h) (h_uid h) = true) ->
+  (dir = 0 \/ dir = 1) ->
+  C10_packet_ok hs b key dir reqid (model_accepts open b key dir reqid) = true.
+Proof. intros seal open [A [B [C D]]]. intros. eapply model_meets_packet_oracle; eauto. Qed.
+
+Lemma c10_cookie_oracle : forall seal open, ideal_aead seal open ->
+  forall c0 key0 keyid rnd cb0 cb key,
+  wf_cookie c0 -> lenz (sc_s2c c0) + lenz (sc_c2s c0) < 65000 -> length rnd = 16%nat ->
+  cookie_seal seal c0 key0 keyid rnd = Ok cb0 ->
+  (forall ec n ad pt, ec_decode cb = Ok ec -> ec_ct ec = seal key n ad pt ->
+                      ec_ct ec = seal key0 rnd None (sc_encode c0)) ->
+  C10_cookie_ok cb0 key0 c0 cb key (cookie_result open cb key) = true.
+Proof. intros seal open [A [B [C D]]]. intros. eapply model_meets_cookie_oracle; eauto. Qed.
+
+Lemma c10_no_fuel : forall open b key reqID,
+  server_accept open b key <> OutOfFuel /\ client_accept open b key reqID <> OutOfFuel.
+Proof.
+  intros open b key reqID. unfold server_accept, client_accept, process_request, process_response.
+  pose proof (decode_packet_fuel b) as F.
+  destruct (decode_packet b) as [p| | |]; try (split; discriminate); [|contradiction].
+  split; [apply authenticate_fuel|].
+  destruct (negb (bytes_eqb reqID (p_uid p))); [discriminate|apply authenticate_fuel].
+Qed.
+
+Lemma c10_cookie_no_fuel : forall open cb key, cookie_open open cb key <> OutOfFuel.
+Proof.
+  intros open cb key. unfold cookie_open, ec_decode.
+  pose proof (tlv_decode_fuel cookieTypeKeyID cookieTypeNonce cookieTypeCiphertext cb) as F.
+  destruct (tlv_decode cookieTypeKeyID cookieTypeNonce cookieTypeCiphertext cb) as [s| | |]; try discriminate; [|contradiction].
+  unfold ec_decrypt. destruct (negb (key_ok key)); [discriminate|]. simpl.
+  destruct (negb (length (v2 s) =? 16)%nat); [discriminate|].
+  destruct (open key (v2 s) None (v3 s)) as [pt|]; [|discriminate].
+  unfold sc_decode.
+  pose proof (tlv_decode_fuel cookieTypeAlgorithm cookieTypeKeyS2C cookieTypeKeyC2S pt) as G.
+  destruct (tlv_decode cookieTypeAlgorithm cookieTypeKeyS2C cookieTypeKeyC2S pt); try discriminate. contradiction.
+Qed.
+
+(* ------------- listeners ------------- *)
+Definition first_cookie_of (b : bytes) : option bytes :=
+  match decode_packet b with
+  | Ok q => match p_cookies q with c :: _ => Some c | [] => None end
+  | _ => None
+  end.
+
+Lemma c10_listener_sound : forall seal open, ideal_aead seal open ->
+  forall getkey hs b p sc,
+  server_nts open getkey b = Ok (p, sc) ->
+  (forall h, In h hs -> honest_ok seal h) -> unforgeable seal hs b (sc_c2s sc) 0 ->
+  existsb (fun h => (h_dir h =? 0) && untampered b h) hs = true /\
+  exists cb ec mk, first_cookie_of b = Some cb /\ ec_decode cb = Ok ec /\ getkey (ec_id ec) = Some mk /\
+                   cookie_open open cb mk = Ok sc.
+Proof.
+  intros seal open [A [B [C D]]] getkey hs b p sc H Hh Hu.
+  unfold server_nts in H.
+  destruct (decode_packet b) as [q| | |] eqn:Hd; try discriminate.
+  destruct (first_cookie q) as [cb| | |] eqn:Hf; try discriminate.
+  destruct (ec_decode cb) as [ec| | |] eqn:He; try discriminate.
+  destruct (getkey (ec_id ec)) as [mk|] eqn:Hg; [|discriminate].
+  destruct (ec_decrypt open ec mk) as [sc'| | |] eqn:Hc; try discriminate.
+  destruct (process_request open b (sc_c2s sc') q) as [p'| | |] eqn:Hp; try discriminate.
+  inversion H; subst p' sc'. clear H.
+  split.
+  - assert (M : model_accepts open b (sc_c2s sc) 0 [] = true).
+    { unfold model_accepts, server_accept. simpl. rewrite Hd, Hp. reflexivity. }
+    assert (J : existsb (justifies b (sc_c2s sc) 0 []) hs = true) by (eapply accepted_justified; eauto).
+    apply existsb_exists in J. destruct J as [h [Hin J]].
+    apply existsb_exists. exists h. split; auto.
+    unfold justifies in J. apply andb_true_iff in J. destruct J as [J _].
+    apply andb_true_iff in J. destruct J as [J J3]. apply andb_true_iff in J. destruct J as [_ J2].
+    rewrite J2, J3. reflexivity.
+  - exists cb, ec, mk. unfold first_cookie_of. rewrite Hd. unfold first_cookie in Hf.
+    destruct (p_cookies q) as [|c0 r] eqn:Hq; [discriminate|]. inversion Hf; subst c0.
+    repeat split; auto. unfold cookie_open. rewrite He. exact Hc.
+Qed.
